@@ -1,8 +1,12 @@
 package main
 
 import (
+	"bytes"
+	"encoding/json"
 	"fmt"
 	"math/rand"
+	"os"
+	"os/exec"
 	"runtime"
 	"strings"
 	"sync"
@@ -243,6 +247,96 @@ func randomHistory(rng *rand.Rand) []tStep {
 	return h
 }
 
+// c14Obs is what a child process reports for one history.
+type c14Obs struct {
+	Steps     []string `json:"steps"`
+	Latency   []string `json:"latency"`
+	Errs      []string `json:"errs"`
+	Suspects  []string `json:"suspects"`
+	Snapshots []string `json:"snapshots"`
+	Overshoot int64    `json:"overshoot_ns"`
+}
+
+func allHistories(seed int64, quick bool) [][]tStep {
+	histories := fixedHistories()
+	rng := rand.New(rand.NewSource(seed*314606869 + 14))
+	n := 150
+	if quick {
+		n = 4
+	}
+	for k := 0; k < n; k++ {
+		histories = append(histories, randomHistory(rng))
+	}
+	return histories
+}
+
+// c14ChildMain runs history number idx alone in this process and prints its observations.
+func c14ChildMain(spec string) int {
+	var idx int
+	var seed int64
+	var quick int
+	fmt.Sscanf(spec, "%d/%d/%d", &idx, &seed, &quick)
+	hs := allHistories(seed, quick == 1)
+	if idx < 0 || idx >= len(hs) {
+		return 2
+	}
+	regexp2.SetTimeoutCheckPeriod(clockPeriod)
+	cal := startCalibrator()
+	obs, snaps := runTimedHistory(hs[idx], 0)
+	over := cal.finish()
+	out := c14Obs{Snapshots: snaps, Overshoot: int64(over)}
+	for _, o := range obs {
+		out.Steps = append(out.Steps, o.step.String())
+		out.Latency = append(out.Latency, o.latency.Round(100*time.Microsecond).String())
+		out.Errs = append(out.Errs, o.err)
+		out.Suspects = append(out.Suspects, o.suspect)
+	}
+	b, _ := json.Marshal(out)
+	fmt.Println(string(b))
+	return 0
+}
+
+// historyBudget bounds the wall time of one history in a child (a match whose timeout never
+// fires would otherwise spin forever).
+func historyBudget(h []tStep) time.Duration {
+	d := 20 * time.Second
+	for _, s := range h {
+		d += s.d + time.Second
+	}
+	return d
+}
+
+// runHistoryInChild executes one history in a fresh process under a watchdog.
+func runHistoryInChild(self string, idx int, seed int64, quick bool, h []tStep) (*c14Obs, string) {
+	q := 0
+	if quick {
+		q = 1
+	}
+	cmd := exec.Command(self, "-check", "C14", "-c14hist", fmt.Sprintf("%d/%d/%d", idx, seed, q))
+	var out bytes.Buffer
+	cmd.Stdout = &out
+	if err := cmd.Start(); err != nil {
+		return nil, "cannot start child: " + err.Error()
+	}
+	done := make(chan error, 1)
+	go func() { done <- cmd.Wait() }()
+	select {
+	case err := <-done:
+		if err != nil {
+			return nil, "child failed: " + err.Error()
+		}
+	case <-time.After(historyBudget(h)):
+		cmd.Process.Kill()
+		<-done
+		return nil, fmt.Sprintf("the history did not finish within %v: a timed match never returned (its timeout did not fire) or StopTimeoutClock hung", historyBudget(h))
+	}
+	var o c14Obs
+	if err := json.Unmarshal(lastLine(out.Bytes()), &o); err != nil {
+		return nil, "child output not understood"
+	}
+	return &o, ""
+}
+
 func histString(h []tStep) string {
 	var s []string
 	for _, x := range h {
@@ -252,81 +346,82 @@ func histString(h []tStep) string {
 }
 
 func runC14(r *core.Run) int {
-	regexp2.SetTimeoutCheckPeriod(clockPeriod)
-	histories := fixedHistories()
-	rng := rand.New(rand.NewSource(r.Seed*314606869 + 14))
-	for k := 0; k < r.Pick(4, 150); k++ {
-		histories = append(histories, randomHistory(rng))
-	}
+	histories := allHistories(r.Seed, r.Quick())
+	self, _ := os.Executable()
 	l := r.Main()
 	var suspects []string
-	defer func() { regexp2.StopTimeoutClock() }()
+	firstBad := func(o *c14Obs) (int, string) {
+		for i, sp := range o.Suspects {
+			if sp != "" {
+				return i, sp
+			}
+		}
+		return -1, ""
+	}
 	for hi, h := range histories {
 		if r.Stopped() {
 			break
 		}
-		regexp2.StopTimeoutClock()
-		cal := startCalibrator()
-		obs, snaps := runTimedHistory(h, 0)
-		over := cal.finish()
+		o, fatal := runHistoryInChild(self, hi, r.Seed, r.Quick(), h)
 		l.Count("histories", 1)
-		var firstSuspect *stepObs
-		for i := range obs {
-			l.Eval(1)
-			l.Count("step_"+obs[i].step.kind, 1)
-			if obs[i].suspect != "" && firstSuspect == nil {
-				firstSuspect = &obs[i]
-			}
+		l.Eval(int64(len(h)))
+		for _, st := range h {
+			l.Count("step_"+st.kind, 1)
 		}
 		l.Nontrivial(histString(h))
-		if hi < 2 {
+		if o != nil && hi < 2 {
 			var lat []string
-			for _, o := range obs {
-				lat = append(lat, fmt.Sprintf("%s=%v/%s", o.step, o.latency.Round(100*time.Microsecond), o.err))
+			for i := range o.Steps {
+				lat = append(lat, fmt.Sprintf("%s=%s/%s", o.Steps[i], o.Latency[i], o.Errs[i]))
 			}
-			l.Sample(map[string]any{"history": histString(h), "observed": lat, "scheduler_overshoot": over.String()})
+			l.Sample(map[string]any{"history": histString(h), "observed": lat, "scheduler_overshoot": time.Duration(o.Overshoot).String()})
 		}
-		if firstSuspect == nil {
+		what := fatal
+		if o != nil {
+			if i, sp := firstBad(o); i >= 0 {
+				what = o.Steps[i] + ": " + sp
+			}
+		}
+		if what == "" {
 			continue
 		}
 		l.Count("suspects", 1)
-		// re-execute alone, up to three times, with measured overshoot as tolerance
+		// re-execute alone (fresh process each time), up to three times
 		reproduced := 0
 		var details []string
 		for try := 0; try < 3; try++ {
-			regexp2.StopTimeoutClock()
-			runtime.GC()
-			cal := startCalibrator()
-			obs2, snaps2 := runTimedHistory(h, 0)
-			ov := cal.finish()
-			bad := ""
-			for _, o := range obs2 {
-				if o.suspect != "" {
-					bad = fmt.Sprintf("%s: %s", o.step, o.suspect)
-					break
+			o2, fatal2 := runHistoryInChild(self, hi, r.Seed, r.Quick(), h)
+			bad := fatal2
+			ov := time.Duration(0)
+			snap := ""
+			if o2 != nil {
+				ov = time.Duration(o2.Overshoot)
+				snap = strings.Join(o2.Snapshots, "; ")
+				if i, sp := firstBad(o2); i >= 0 {
+					bad = o2.Steps[i] + ": " + sp
 				}
 			}
 			if bad != "" && ov <= overshootMax {
 				reproduced++
-				details = append(details, fmt.Sprintf("run %d (overshoot %v): %s [%s]", try+1, ov, bad, strings.Join(snaps2, "; ")))
+				details = append(details, fmt.Sprintf("run %d (overshoot %v): %s [%s]", try+1, ov, bad, snap))
 			} else if bad != "" {
 				details = append(details, fmt.Sprintf("run %d: %s but scheduler overshoot was %v", try+1, bad, ov))
 			}
 		}
 		if reproduced == 3 {
-			l.Violate(core.Violation{Kind: "timeout-behaviour", Detail: fmt.Sprintf("history [%s]: %s: %s; reproduced 3/3 alone: %s (first run snapshots: %s)", histString(h), firstSuspect.step, firstSuspect.suspect, strings.Join(details, " || "), strings.Join(snaps, "; ")),
-				Witness: core.Witness{Pattern: catPattern, Args: map[string]any{"history": histString(h)}}})
+			l.Violate(core.Violation{Kind: "timeout-behaviour", Detail: fmt.Sprintf("history [%s]: %s; reproduced 3/3 in fresh processes: %s", histString(h), what, strings.Join(details, " || ")),
+				Witness: core.Witness{Pattern: catPattern, Args: map[string]any{"history": histString(h), "history_index": hi, "seed": r.Seed}}})
 		} else {
 			l.Inconclusive("suspect-not-reproduced-3-of-3")
-			suspects = append(suspects, fmt.Sprintf("[%s] %s: %s (first-run overshoot %v; re-runs: %s)", histString(h), firstSuspect.step, firstSuspect.suspect, over, strings.Join(details, " || ")))
+			suspects = append(suspects, fmt.Sprintf("[%s] %s (re-runs: %s)", histString(h), what, strings.Join(details, " || ")))
 		}
 	}
 	l.Done()
 	r.Extras["unreproduced_suspects"] = suspects
 	r.Workers = 1
-	r.Extras["bounds"] = map[string]any{"histories": len(histories), "clock_period": clockPeriod.String(), "window": fmt.Sprintf("[d-%v, d+%v] (+5ms per concurrent match)", earlySlack, lateSlack), "timeouts": "20/50/120 ms", "idles": "5 ms, 300 ms, 1.3 s, 2.5 s"}
+	r.Extras["bounds"] = map[string]any{"histories": len(histories), "clock_period": clockPeriod.String(), "window": fmt.Sprintf("[d-%v, d+%v] (+5ms per concurrent match)", earlySlack, lateSlack), "timeouts": "20/50/120 ms", "idles": "5 ms, 300 ms, 1.3 s, 2.5 s", "isolation": "every history runs in its own child process under a watchdog"}
 	return r.Finish(
-		"histories of timed catastrophic matches T(d) (must fail with a timeout inside [d-5ms, d+40ms]), timed quick matches Q(d) (must not report a timeout), idle gaps shorter and longer than timeout + the clock's 1 s slop (after the long ones the clock goroutine must be gone and timeouts must still fire), StopTimeoutClock calls (must return and leave no clock goroutine) and concurrent timed matches with different deadlines, with a 1 ms clock period; 12 hand-ordered histories covering every predecessor/successor pair that matters plus seeded random ones; evaluation = one step; non-trivial = distinct history",
-		[]string{"wall-clock verdicts: a miss is a suspect, re-executed alone 3 times with scheduler overshoot measured; violation only if reproduced 3/3 with overshoot <= 15 ms, otherwise inconclusive", "millisecond-level accuracy is not claimed"},
+		"histories of timed catastrophic matches T(d) (must fail with a timeout inside [d-5ms, d+40ms]), timed quick matches Q(d) (must not report a timeout), idle gaps shorter and longer than timeout + the clock's 1 s slop (after the long ones the clock goroutine must be gone and timeouts must still fire), StopTimeoutClock calls (must return and leave no clock goroutine) and concurrent timed matches with different deadlines, with a 1 ms clock period; each history runs in a fresh child process under a watchdog (a match whose timeout never fires cannot hang the check); 12 hand-ordered histories covering every predecessor/successor pair that matters plus seeded random ones; evaluation = one step; non-trivial = distinct history",
+		[]string{"wall-clock verdicts: a miss is a suspect, re-executed 3 times in fresh processes with scheduler overshoot measured; violation only if reproduced 3/3 with overshoot <= 15 ms, otherwise inconclusive", "millisecond-level accuracy is not claimed"},
 		map[string]int64{"evaluations": 40, "distinct_nontrivial": 10, "step_T": 10, "step_G": 3, "step_S": 3})
 }
